@@ -39,6 +39,18 @@ def window_widths(ctx):
     return sorted(out)
 
 
+def windows(ctx):
+    """{attribute: width} of the receive windows a connection owns: self.bitfield_pkt = BitField(32), self.bitfield_msg = BitField(256)"""
+    init = ctx.fn("connection:ConnectionBase.__init__")
+    out = {}
+    for n in walk_own(init.node):
+        if isinstance(n, ast.Assign) and isinstance(n.value, ast.Call) and norm(n.value.func) == "BitField" and norm(n.targets[0]).startswith("self."):
+            v = ctx.folder.fold(n.value.args[0], init.module, cls=init.cls) if n.value.args else 32
+            if isinstance(v, int):
+                out[norm(n.targets[0])[5:]] = v
+    return out
+
+
 def bitfield_syms(ctx, nbits):
     """abstract values of the BitField attributes for a given width, derived from __init__"""
     init = ctx.fn("connection:BitField.__init__")
@@ -85,10 +97,10 @@ def explore_insert(ctx, nbits, diff_cell):
 def window_cells(ctx, RULE, include_beyond=True):
     fi = ctx.fn(INS)
     T = ctx.folder.class_attr(ctx.repo.cls("connection:SeqNum"), "_threshold")
-    widths = window_widths(ctx)
-    ctx.expect(RULE, "BitField constructor sites (window widths)", len(widths), 2)
-    widths = sorted(set(widths) | ({8, 64, 128} if ctx.tier == "thorough" else set()))
-    for nb in widths:
+    wins = windows(ctx)
+    ctx.expect(RULE, "receive windows of a connection (bitfield_pkt, bitfield_msg)", len(wins), 2)
+    todo = sorted(wins.items()) + ([("extra-width", w) for w in (8, 64, 128)] if ctx.tier == "thorough" else [])
+    for (wname, nb) in todo:
         cells = [("newer beyond window", (-T, -nb - 1)), ("newer inside window", (-nb, -1)), ("current", (0, 0)),
                  ("older inside window", (1, nb)), ("older than window", (nb + 1, T))]
         for (name, cell) in cells:
@@ -125,7 +137,9 @@ def window_cells(ctx, RULE, include_beyond=True):
                           witness=[repr(o) for o in outs2][:3])
             elif include_beyond:
                 acc = [o for o in outs2 if o.kind != "raise"]
-                ctx.check(not acc and outs2, RULE, fi, "nbits=%d cell=%s" % (nb, name),
+                if wname == "extra-width":
+                    continue        # the open horizon is reported once per real window, not per probed width
+                ctx.check(not acc and outs2, RULE, fi, "%s nbits=%d cell=%s" % (wname, nb, name),
                           "a sequence number older than the window must be refused (its freshness cannot be established)",
                           witness={"diff": "[%d, %d]" % cell, "accepting_path": [repr(o) for o in acc][:1]}, line=fi.lineno)
 
